@@ -27,3 +27,16 @@ for k, v in out.items():
     for r in v:
         print(k, r)
 print(sum(len(v) for v in out.values()), "deliberately carried locals")
+
+# per-item stores whose value depends on the loop variable (reference of shapes.loop_dependence_rule)
+out = {}
+for name, m in sorted(repo.modules.items()):
+    tab = {}
+    for fi in m.all_functions():
+        rows = sorted(k for k, dep in shapes.loop_dependent_stores(fi).items() if dep)
+        if rows:
+            tab[fi.qualname] = [list(r) for r in rows]
+    if tab:
+        out[name] = tab
+json.dump(out, open(os.path.join(shapes.TABLES, "loop_stores.json"), "w"), indent=0, sort_keys=True)
+print(sum(len(r) for v in out.values() for r in v.values()), "per-item stores depending on their loop variable")
